@@ -17,7 +17,9 @@ PAIR_RULE = ("pairs (old,new) of schemas: random schemas (0..4 tables, 1..5 colu
              "order; dialect mix 3:1:1 mysql:postgres:sqlite x keyword case x field-order option; SQL rendered by the harness with random keyword "
              "case and type alias spellings; 18 hand-written witness pairs (one per defect found) run first. Every case: both sides loaded through "
              "sqlize.FromString, white-box state after load and after Diff, StringUp/StringDown/StringUp compared with the Lean model; the migration "
-             "text printed by Go is parsed by Spec/Grammar and executed on the reference engine (Spec.c01/c02/c03/c13). non-trivial = non-empty "
+             "text printed by Go is parsed by Spec/Grammar and executed on the reference engine (Spec.c01/c02/c03/c13). A pair the executable predicate "
+             "Spec.Scope.Proved accepts (the hypotheses of the whole-schema theorems, Proofs/ScopeB.lean) is counted under cases_inside_theorem_scope and is never excused by a "
+             "recorded-finding region. non-trivial = non-empty "
              "migration; distinct by (config, old script, new script)")
 SCRIPT_RULE = ("well-formed DDL scripts: random walks of 1..14 statements from the empty schema over createTable / addColumn [FIRST|AFTER] / "
                "dropColumn / modifyColumn / renameColumn / addPk / addFk / dropFk / createIndex [USING] / dropIndex / renameIndex / dropTable, "
@@ -72,7 +74,7 @@ PROPS = {
 
     "C01": {
         "level": "proof",
-        "lean_modules": ["SqlizeModel.Props.C01"],
+        "lean_modules": ["SqlizeModel.Props.C01", "SqlizeModel.Proofs.ScopeB"],
         "theorems": ["Sqlize.C01.columns", "Sqlize.Abs.columns_up", "Sqlize.Abs.Merge.merge_correct", "Sqlize.Abs.emitUp_correct", "Sqlize.C01.printed_columns", "Sqlize.walkCols_up_refines", "Sqlize.C01.diffed_columns", "Sqlize.Table.diffCols2_names", "Sqlize.Table.diff_cols_tagged", "Sqlize.C01.columns_from_scripts", "Sqlize.columns_end_to_end",
                      "Sqlize.C01.indexes_and_keys_from_scripts", "Sqlize.elems_end_to_end", "Sqlize.Abs.Idx.emit_correct", "Sqlize.Abs.Idx.emitKeep_correct",
                      "Sqlize.Table.walkIdx_refines", "Sqlize.Table.walkFk_refines", "Sqlize.Table.diff_elems",
@@ -84,7 +86,7 @@ PROPS = {
                      "Sqlize.C01.columns_on_reference_engine", "Sqlize.columns_spec_up", "Sqlize.colExecAll_of_abs", "Sqlize.colExecAll_set", "Sqlize.execAll_of_colExecAll", "Sqlize.added_column_def", "Sqlize.Table.walkCols_stmtCols",
                      "Sqlize.C01.changed_column_modified", "Sqlize.perm_of_not_changed", "Sqlize.ckey_inj", "Sqlize.Table.diff_like", "Sqlize.Table.walkCols_modify",
                      "Sqlize.C01.equal_primary_key_untouched", "Sqlize.C01.tables_from_scripts", "Sqlize.Migration.migrate_tbl",
-                     "Sqlize.Migration.diffTables2_appends"],
+                     "Sqlize.Migration.diffTables2_appends", "Sqlize.proved_up"],
         "suites": [{"name": "pair"}],
         "corr_points": ["load-old", "load-new", "state-old", "state-new", "Diff", "state-diff", "StringUp"],
         "rule": PAIR_RULE,
@@ -113,7 +115,7 @@ PROPS = {
     },
     "C02": {
         "level": "proof",
-        "lean_modules": ["SqlizeModel.Props.C02"],
+        "lean_modules": ["SqlizeModel.Props.C02", "SqlizeModel.Proofs.ScopeB"],
         "theorems": ["Sqlize.C02.columns", "Sqlize.C02.up_down_identity", "Sqlize.Abs.emitDown_correct", "Sqlize.C02.printed_columns", "Sqlize.walkCols_down_refines", "Sqlize.C02.diffed_columns", "Sqlize.C02.columns_from_scripts",
                      "Sqlize.C02.indexes_and_keys_from_scripts", "Sqlize.Abs.Idx.emitDown_correct", "Sqlize.Abs.Idx.emitDownKeep_correct",
                      "Sqlize.Table.walkIdx_refines_down", "Sqlize.Table.walkFk_refines_down",
@@ -122,7 +124,7 @@ PROPS = {
                      "Sqlize.C02.columns_on_reference_engine", "Sqlize.columns_spec_down", "Sqlize.removed_column_def", "Sqlize.Table.diffCols2_mem_full",
                      "Sqlize.C02.indexes_with_dropped_columns", "Sqlize.Abs.Idx.emitDownSup_correct", "Sqlize.Table.walkIdx_refines_down_sup",
                      "Sqlize.equal_pk_untouched_down", "Sqlize.table_spec_down_any", "Sqlize.table_stmts_justified_down", "Sqlize.loaded_table_spec",
-                     "Sqlize.schema_spec_down", "Sqlize.C02.schema_on_reference_engine", "Sqlize.C02.up_then_down_on_reference_engine"],
+                     "Sqlize.schema_spec_down", "Sqlize.C02.schema_on_reference_engine", "Sqlize.C02.up_then_down_on_reference_engine", "Sqlize.proved_down"],
         "suites": [{"name": "pair"}],
         "corr_points": ["load-old", "load-new", "state-old", "state-new", "Diff", "state-diff", "StringUp", "StringDown"],
         "rule": PAIR_RULE,
@@ -142,10 +144,10 @@ PROPS = {
     },
     "C03": {
         "level": "proof",
-        "lean_modules": ["SqlizeModel.Props.C03"],
+        "lean_modules": ["SqlizeModel.Props.C03", "SqlizeModel.Proofs.ScopeB"],
         "theorems": ["Sqlize.C03.unchanged_prints_nothing", "Sqlize.C03.same_options_unchanged", "Sqlize.migrate_quiet",
                      "Sqlize.C03.equal_content_empty", "Sqlize.C03.self_diff_empty", "Sqlize.C03.same_script_empty", "Sqlize.C03.equal_schemas_from_scripts",
-                     "Sqlize.hasChangedOptions_of_perm", "Sqlize.ReaderMysql.step_plain", "Sqlize.table_same", "Sqlize.Table.diff_same", "Sqlize.Migration.diff_same", "Sqlize.C03.schema_on_reference_engine", "Sqlize.C03.equal_table_never_justified", "Sqlize.schema_c03", "Sqlize.dbEquiv_of_equiv"],
+                     "Sqlize.hasChangedOptions_of_perm", "Sqlize.ReaderMysql.step_plain", "Sqlize.table_same", "Sqlize.Table.diff_same", "Sqlize.Migration.diff_same", "Sqlize.C03.schema_on_reference_engine", "Sqlize.C03.equal_table_never_justified", "Sqlize.schema_c03", "Sqlize.dbEquiv_of_equiv", "Sqlize.proved_both"],
         "suites": [{"name": "pair"}, {"name": "struct", "kind": "struct"}],
         "corr_points": ["load-old", "load-new", "state-old", "state-new", "Diff", "state-diff", "StringUp", "StringDown", "StringUp-2nd"],
         "rule": PAIR_RULE,
